@@ -324,10 +324,21 @@ def drive_accelerated_advection_steps(m, tier, part=0):
             br = BSplines(make_knots(np.linspace(0.1, 14.5, nr - 2), 3, False), 3, False, cu)
             q, r = np.ascontiguousarray(bq.greville), np.ascontiguousarray(br.greville)
             Q, R = np.meshgrid(q, r, indexing='ij')
-            for pot in (0.5 * R * np.cos(Q) * np.sin(0.2 * R), 0.06 * R ** 2 / 2, 0.01 * np.sin(2 * Q + 0.3) * (R - 0.1) + 0.05 * R * np.sin(Q)):
-                phis = Spline2D(bq, br)
-                itp = SplineInterpolator2D(bq, br)
-                itp.compute_interpolant(pot, phis)
+            # the potential lives on its own spline spaces (the kernels take knots and degrees of phi and of f separately):
+            # more cells on the fast path, other degrees and breakpoints on the general path
+            if cu:
+                bqp = BSplines(make_knots(np.linspace(0, tp, nq + 3), 3, True), 3, True, True)
+                brp = BSplines(make_knots(np.linspace(0.1, 14.5, nr), 3, False), 3, False, True)
+            else:
+                bqp = BSplines(make_knots(np.linspace(0, tp, nq + 1) + 0.1 * np.sin(np.linspace(0, tp, nq + 1)), 2, True), 2, True, False)
+                brp = BSplines(make_knots(np.array([0.1, 2.0, 5.5, 7.0, 11.0, 14.5]), 4, False), 4, False, False)
+            Qp, Rp = np.meshgrid(np.ascontiguousarray(bqp.greville), np.ascontiguousarray(brp.greville), indexing='ij')
+            itp = SplineInterpolator2D(bq, br)
+            itpp = SplineInterpolator2D(bqp, brp)
+            for potf in (lambda Q, R: 0.5 * R * np.cos(Q) * np.sin(0.2 * R), lambda Q, R: 0.06 * R ** 2 / 2,
+                         lambda Q, R: 0.01 * np.sin(2 * Q + 0.3) * (R - 0.1) + 0.05 * R * np.sin(Q)):
+                phis = Spline2D(bqp, brp)
+                itpp.compute_interpolant(potf(Qp, Rp), phis)
                 f0 = np.cos(Q) * R + 1.0
                 fs = Spline2D(bq, br)
                 itp.compute_interpolant(f0, fs)
@@ -336,7 +347,7 @@ def drive_accelerated_advection_steps(m, tier, part=0):
                         for v in (0.0, 2.0):
                             W = [np.full((nq, nr), np.nan) for _ in range(8)]
                             f = f0.copy()
-                            args = (f, float(dt), float(v), r, q, *W, np.ascontiguousarray(bq.knots), np.ascontiguousarray(br.knots), np.ascontiguousarray(phis.coeffs), 3, 3,
+                            args = (f, float(dt), float(v), r, q, *W, np.ascontiguousarray(bqp.knots), np.ascontiguousarray(brp.knots), np.ascontiguousarray(phis.coeffs), int(bqp.degree), int(brp.degree),
                                     np.ascontiguousarray(bq.knots), np.ascontiguousarray(br.knots), np.ascontiguousarray(fs.coeffs), 3, 3, *CST, 1.0)
                             if part == 2:
                                 m.poloidal_advection_step_expl(*args, cu, nul)
